@@ -148,7 +148,7 @@ def execute(case):
         )
     # world-side view of the candidate lists
     wl = []
-    for lst in lists:
+    for lst in (lists if world.kind != "trace" else []):
         wl.append([(worlds.field_key(c), len(c), world.excess(c, HMAX), world.excess(c, HMIN)) for c in lst])
     obs["wlists"] = wl
     obs["world"] = world
